@@ -3,7 +3,8 @@
    [run c evs] = (final state, output log) of the connection model started by connectionMade under
    configuration c and driven by the ARBITRARY event list evs (reachable states = states of runs). *)
 From Coq Require Import NArith List Bool.
-From AV Require Import Gen.WsConnConsts Model.WsConn Proofs.WsConnProofs Proofs.WsConnProofs2 Proofs.WsConnProofs3.
+From AV Require Import Gen.WsConnConsts Model.WsConn Proofs.WsConnProofs Proofs.WsConnProofs2 Proofs.WsConnProofs3
+  Proofs.WsConnTimers Proofs.WsConnLive.
 Import ListNotations.
 Open Scope N_scope.
 
@@ -67,27 +68,43 @@ Print Assumptions C05_internal_codes_allowed.
 (* ---- clean only if both close frames travelled; then code/reason are the peer's ----
    [lastPeerClose] is the model's ghost record of the last close frame that reached onCloseFrame
    (PC body = payload as parsed by processControlFrame, PC1 = a 1-octet payload).
-   Full strength: a clean report carries exactly the code and reason of that frame. *)
+   Full strength: a clean report means that this frame was well-formed and carries exactly its code and reason. *)
 Definition clean_report_is_peers (c : cfg) (evs : list event) : Prop :=
   forall t code reason k, In (t, CbClose true code reason k) (snd (run c evs)) ->
     close_in (snd (run c evs)) = true /\
     exists pc, lastPeerClose (fst (run c evs)) = Some pc /\
-      match pc with PC body => code = body_code body /\ reason = body_reason body | PC1 => code = None /\ reason = None end.
+      match pc with
+      | PC body => body_valid body /\ code = body_code body /\ reason = body_reason body
+      | PC1 => False          (* a 1-octet close payload is a protocol violation, not a close with "no code" *)
+      end.
 
-(* Still FALSE after the repair d34a3b8b, in a corner (replay corpus/C05/later-invalid-close-overwrites-report.json,
-   key onCloseFrame/later-invalid-close-overwrites-report): onCloseFrame resets remoteCloseCode/Reason on entry; a
-   second, invalid close frame that arrives after the closing handshake is complete (wasClean = True, failByDrop =
-   False) fails the connection without a new dispatch, so onClose reports wasClean = True with the fields of neither
-   frame *)
-Theorem C05_clean_iff_both_refuted : exists c evs, ~ clean_report_is_peers c evs.
+(* FALSE on two paths that remain after the repair d34a3b8b (both listed in known_findings.json):
+   (1) key onCloseFrame/later-invalid-close-overwrites-report (corpus/C05/later-invalid-close-overwrites-report.json):
+       onCloseFrame resets remoteCloseCode/Reason on entry; a second, invalid close frame arriving after the closing
+       handshake is complete (wasClean = True, failByDrop = False) fails the connection without a new dispatch, so
+       onClose reports wasClean = True with the fields of neither frame *)
+Theorem C05_clean_iff_both_refuted_later_invalid : exists c evs, ~ clean_report_is_peers c evs.
 Proof.
   exists (mkCfg Client false false 2000 1000 1000 0 0 12 true 0).
   exists [EHandshake; EPeerClose (Some (1000, Some [111; 107])) []; EPeerClose (Some (999, None)) []; EOwnDrop].
   intro H. destruct (H 0 None None RNone) as (_ & pc & Hl & Hm).
   - vm_compute. auto 10.
-  - vm_compute in Hl. inversion Hl; subst. simpl in Hm. destruct Hm. discriminate.
+  - vm_compute in Hl. inversion Hl; subst. destruct Hm as [[Hv _] _]. vm_compute in Hv. discriminate.
 Qed.
-Print Assumptions C05_clean_iff_both_refuted.
+Print Assumptions C05_clean_iff_both_refuted_later_invalid.
+
+(* (2) key onCloseFrame/1-octet-peer-close-reported-clean (corpus/C05/one-octet-close-reported-clean.json): a close
+       frame with a 1-octet payload is failed with 1002 by the header check of processData, then handed to
+       onCloseFrame as an empty close, which completes the handshake we have just begun: onClose(True, None, None) *)
+Theorem C05_clean_iff_both_refuted_one_octet : exists c evs, ~ clean_report_is_peers c evs.
+Proof.
+  exists (mkCfg Server false false 2000 1000 0 0 0 12 true 0).
+  exists [EHandshake; EPeerClose1 []; EOwnDrop].
+  intro H. destruct (H 0 None None RNone) as (_ & pc & Hl & Hm).
+  - vm_compute. auto 10.
+  - vm_compute in Hl. inversion Hl; subst. exact Hm.
+Qed.
+Print Assumptions C05_clean_iff_both_refuted_one_octet.
 
 (* What does hold, for every run: a clean report implies that a close frame was written and that one was received,
    and the reported values are [exp_code]/[exp_reason] of the last frame that reached onCloseFrame: the peer's own
@@ -113,6 +130,34 @@ Example C05_witness_one_octet_close_reported_clean :
   [(0, WHttp); (0, CbOpen); (0, IsOpen); (0, WClose OFail (Some 1002) (Some [])); (0, IsClosed); (0, Abort);
    (0, CbClose true None None RNone)].
 Proof. vm_compute. reflexivity. Qed.
+
+(* ---- bounded closing ----
+   Time only advances through [ETick t], which runs every reactor call due up to t (C05_tick_fair below: no call is
+   ever overdue between two events, in any run -- this is the fairness the property asks for, proved of the model's
+   clock rather than assumed).  With both timeouts enabled (> 0; 0 = disabled is unbounded by design, see
+   C05_unbounded_when_disabled): in EVERY reachable CLOSING state that began closing at tc the virtual time is
+   <= tc + closeHandshakeTimeout (+ serverConnectionDropTimeout for a client); hence at every later point of the run
+   whose time exceeds that bound the connection is CLOSED.  This includes the path of the former finding F-C05-1
+   (client answering the peer's close frame), repaired by ba5bad9e. *)
+Theorem C05_bounded : forall c, 0 < closeHandshakeTimeout c ->
+  (is_server c = false -> 0 < serverConnectionDropTimeout c) ->
+  forall evs tc, st (fst (run c evs)) = CLOSING -> closingSince (fst (run c evs)) = Some tc ->
+  now (fst (run c evs)) <= tc + closeHandshakeTimeout c + (if is_server c then 0 else serverConnectionDropTimeout c).
+Proof. exact closing_bounded_all. Qed.
+Print Assumptions C05_bounded.
+
+Theorem C05_bounded_closed_after : forall c, 0 < closeHandshakeTimeout c ->
+  (is_server c = false -> 0 < serverConnectionDropTimeout c) ->
+  forall evs evs2 tc, st (fst (run c evs)) = CLOSING -> closingSince (fst (run c evs)) = Some tc ->
+  tc + closeHandshakeTimeout c + (if is_server c then 0 else serverConnectionDropTimeout c) < now (fst (run c (evs ++ evs2))) ->
+  st (fst (run c (evs ++ evs2))) = CLOSED.
+Proof. exact closing_bounded_later. Qed.
+Print Assumptions C05_bounded_closed_after.
+
+(* the fairness of the model's clock *)
+Theorem C05_tick_fair : forall c evs, Forall (fun e => now (fst (run c evs)) <= te_time e) (timers (fst (run c evs))).
+Proof. exact no_overdue_run. Qed.
+Print Assumptions C05_tick_fair.
 
 (* the repaired paths: a reserved close code no longer completes the handshake it provokes ... *)
 Example C05_witness_invalid_close_not_clean :
